@@ -290,8 +290,8 @@ def lrun (L : LZ) : List LOp → LZ
 
 /-- THE PROPERTY on a lazily stacked root: after `set` (string and nested keys, well- or ill-shaped tensors on any device),
 `del_`, `rename_key_`, `names` assignment, `batch_size` assignment (refused), `insert` / `append` of any tensordict — and
-after any finite history of them, accepted or raising, with the partial effects a call that raises in the middle of the
-members leaves behind — every member is a coherent tensordict and all members have the same batch size and device, into
+after any finite history of them, accepted or raising, with the partial effects a `set` / `del_` / `rename_key_` that raises in the
+middle of the members leaves behind — every member is a coherent tensordict and all members have the same batch size and device, into
 which the stack dim fits: the entries of the stack have its batch size as leading dims and live on its device. -/
 theorem lazy_root_coherent : ∀ (ops : List LOp) (L : LZ), LCoherent L → LSafe L ops → LCoherent (lrun L ops)
   | [], _, hc, _ => hc
@@ -321,6 +321,19 @@ theorem lazy_root_names (L : LZ) (hc : LCoherent L) (hne : L.members ≠ []) (ns
         | some l => simp [hmg.1.names_len l rfl, hxb]
       simp only [insertAt, List.length_append, List.length_cons, List.length_take, List.length_drop, hlen]
     · simp at h
+
+/-- …and the names of a stack STAY readable: on a coherent stack whose members agree on their dim names (what `stack.names`
+needs: otherwise it raises "Not all dim names match"), no finite history of `set` / `del_` / `rename_key_` / names assignment /
+`batch_size` assignment / `insert` / `append` — accepted or refused — makes them disagree. (`set`, `del_`, `rename_key_` do not
+touch the dim names of the members themselves; an accepted names assignment gives every member the same names, a refused one
+gives them all back — fix commit 23f256e, `_dim_names_snapshot`; `insert` / `append` compare or adopt the names — fix commit
+b6fbc9a.) With `lazy_root_names`: at every point of the history there is exactly one readable name per batch dim. -/
+theorem lazy_root_names_stay_readable : ∀ (ops : List LOp) (L : LZ), LCoherent L → LSafe L ops →
+    (∃ ns, L.names = .ok ns) → ∃ ns, (lrun L ops).names = .ok ns
+  | [], _, _, _, h => h
+  | op :: ops, L, hc, hs, h =>
+    lazy_root_names_stay_readable ops (lstep L op).1 (lstep_coherent L op hc hs.1) hs.2
+      ((namesAgree_iff_readable _).mp (lstep_namesAgree L op hc ((namesAgree_iff_readable L).mpr h)))
 
 /-- non-vacuity: a coherent nested tree and an incoherent one -/
 example : Coherent (.node [3] (some 0) (some [some "x"]) [("a", .leaf [3, 2] 0), ("n", .node [3, 2] (some 0) none [])]) := by
